@@ -311,7 +311,7 @@ func (g *replayGen) specGo(x *SExpr, old bool, bound map[string]bool) string {
 				return "sonicvcPtr(" + g.specGo(x.Args[1], old, bound) + ")"
 			case "ite":
 				return "sonicvcIte(" + g.specGo(x.Args[1], old, bound) + ", " + g.specGo(x.Args[2], old, bound) + ", " + g.specGo(x.Args[3], old, bound) + ")"
-			case "fresh", "heapslice", "unchanged_except":
+			case "fresh", "freshobj", "heapslice", "unchanged_except":
 				return "true"
 			}
 		}
